@@ -31,7 +31,9 @@ but legal configuration, a multi-step sequence, a storage fault, a boundary
 instant, an integrator-supplied extension); E/F ("changes that hide well":
 sibling paths, store behaviours, concurrency); G/H (integrator-supplied
 implementations, feature interactions, value normalisation, state that
-outlives a request, error-path ordering). After the last round every kept
+outlives a request, error-path ordering); I/J (regressions of the repairs
+made in `/repo`, and changes in helpers shared by several endpoints). After the
+fourth round every kept
 change was applied again to `/repo` HEAD and its checks re-run with the final
 harness (`reseed.py`); the table shows those results. Every change kept here was confirmed by
 `seedrun.py` on a scratch worktree of `/repo` HEAD (suite passes with the
